@@ -53,7 +53,7 @@ void kv_print_hex(FILE *o, const unsigned char *b, int n)
         for(int i = 0; i < n; i++) fprintf(o, "%02x", b[i]);
 }
 
-static struct kv_op *tables[] = { kv_ops_weave, kv_ops_param, kv_ops_io, kv_ops_bpm, kv_ops_dp, kv_ops_sys, kv_ops_misc, kv_ops_ref, kv_ops_kmeans, kv_ops_pipe, kv_ops_pipefile, kv_ops_cli, NULL };
+static struct kv_op *tables[] = { kv_ops_weave, kv_ops_param, kv_ops_io, kv_ops_bpm, kv_ops_dp, kv_ops_sys, kv_ops_misc, kv_ops_ref, kv_ops_kmeans, kv_ops_pipe, kv_ops_pipefile, kv_ops_cli, kv_ops_f32, NULL };
 
 int main(int argc, char **argv)
 {
